@@ -162,7 +162,7 @@ static Reply send_upload(Case const &c, std::string const &ctype, std::string co
 
 static std::string make_query(Case const &c, long long mlimit, long tag) {
     std::string q = "it=" + std::to_string(tag);
-    static const char *fl[] = {"", "raw", "mp", "plain"};
+    static const char *fl[] = {"", "raw", "mp", "plain", "mp&rd=all", "mp&rd=3"};   // 4, 5: multipart filter that reads part data in on_data_ready()
     if (c.filter) q += std::string("&f=") + fl[c.filter];
     if (c.bufsize > 0) q += "&bs=" + std::to_string(c.bufsize);
     if (c.fm >= 0) q += "&fm=" + std::to_string(c.fm);
@@ -207,7 +207,7 @@ static Outcome p_e2e(Case const &c) {
         int ends = 0, errs = 0; for (auto &ev : e.filter_events) { if (ev == "end") ends++; if (ev == "error") errs++; }
         V_CHECK(ends == 1 && errs == 0, "e2e:filter-end", where + "on_end_of_content " + std::to_string(ends) + "x, on_error " + std::to_string(errs) + "x");
         if (c.filter == 1) V_CHECK(e.filter_raw == bytes, "e2e:raw-filter-bytes", where + "raw filter saw " + std::to_string(e.filter_raw.size()) + "B, body is " + std::to_string(bytes.size()) + "B (every byte exactly once, in order)");
-        if (c.filter == 2 && !c.urlencoded) {
+        if ((c.filter == 2 || c.filter >= 4) && !c.urlencoded) {
             // on_new_file -> progress* -> on_data_ready per part, in order
             size_t pi = 0; int state = 0;
             for (auto &ev : e.filter_events) {
@@ -217,6 +217,13 @@ static Outcome p_e2e(Case const &c) {
                 V_CHECK(pi < c.body.parts.size(), "e2e:mp-filter-extra-events", where + ev);
                 if (kind == "new") { V_CHECK(state == 0 && nm == c.body.parts[pi].name, "e2e:mp-filter-order", where + "on_new_file out of order: " + ev); state = 1; }
                 else if (kind == "progress") V_CHECK(state == 1, "e2e:mp-filter-order", where + "progress before on_new_file");
+                else if (kind == "data") {      // what the filter read in on_data_ready(): the part's content (rd=all) or its first 3 bytes
+                    V_CHECK(state == 1, "e2e:mp-filter-order", where + "data outside a part");
+                    std::string want = c.filter == 4 ? c.body.parts[pi].content : c.body.parts[pi].content.substr(0, 3);
+                    size_t c2 = ev.rfind(':'), c1 = ev.rfind(':', c2 - 1);
+                    V_CHECK(atoll(ev.substr(c1 + 1, c2 - c1 - 1).c_str()) == (long long)want.size() && ev.substr(c2 + 1) == std::to_string(vr::fnv(want)), "e2e:mp-filter-data", where + "on_data_ready() of part " + std::to_string(pi) + " read something else than the part's content");
+                    VR.cls("e2e.filter_read_part_data");
+                }
                 else if (kind == "ready") { V_CHECK(state == 1, "e2e:mp-filter-order", where + "on_data_ready without on_new_file"); std::string sz = ev.substr(ev.rfind(':') + 1); V_CHECK(atoll(sz.c_str()) == (long long)c.body.parts[pi].content.size(), "e2e:mp-filter-size", where + ev); state = 0; pi++; }
             }
             V_CHECK(pi == c.body.parts.size() && state == 0, "e2e:mp-filter-missing-events", where + std::to_string(pi) + " of " + std::to_string(c.body.parts.size()) + " parts completed in filter");
@@ -340,13 +347,13 @@ static rc::Gen<Case> gen_e2e_case(bool reject) {
         if (*vr::range<int>(0, 5) == 0) gen_urlencoded(c); else c.body = gen_body(5, *vr::range<int>(0, 8) == 0 ? 200000 : 2000);
         size_t total = c.urlencoded ? c.ubody.size() : c.body.bytes().size();
         c.cuts = gen_cuts(total + 200);
-        c.filter = *vr::range<int>(0, 4);
+        c.filter = *vr::range<int>(0, 6);
         c.bufsize = *vr::range<int>(0, 3) == 0 ? *vr::range<int>(1, 2000) : 0;
         c.fm = *vr::range<int>(0, 3) == 0 ? *vr::range<int>(0, 3000) : -1;
         // a raw content filter receives the bytes unparsed: structural damage is not its business, only the length based flaws apply
         if (reject) { c.flaw = *vr::range<int>(0, 7); if (c.filter == 1 && (c.flaw >= 2 || !c.urlencoded)) c.filter = 2; }
         else c.limit_kind = *vr::range<int>(0, 3);
-        if (c.urlencoded && c.filter == 2) c.filter = 3;
+        if (c.urlencoded && (c.filter == 2 || c.filter >= 4)) c.filter = 3;
         return c;
     });
 }
